@@ -77,21 +77,26 @@ impl<T: Iterator<Item = Token>> TryFrom<&mut Peekable<T>>
 
 impl TryResolve<i64, Integer<i64>> for Integer<LitOrRef<i64>> {
     fn try_resolve(&self, resolver: &impl Resolver<i64>) -> Result<Integer<i64>, ResolveError> {
+        let range = Range(
+            self.range
+                .0
+                .as_ref()
+                .map(|lor| resolver.resolve(lor))
+                .transpose()?,
+            self.range
+                .1
+                .as_ref()
+                .map(|lor| resolver.resolve(lor))
+                .transpose()?,
+            self.range.2,
+        );
         Ok(Integer {
-            range: Range(
-                self.range
-                    .0
-                    .as_ref()
-                    .map(|lor| resolver.resolve(lor))
-                    .transpose()?,
-                self.range
-                    .1
-                    .as_ref()
-                    .map(|lor| resolver.resolve(lor))
-                    .transpose()?,
-                self.range.2,
-            ),
-            //.reconsider_constraints(),
+            // a referenced bound must end up in the same model as the literal it names,
+            // therefore apply the normalisation the parser applies to literal bounds
+            range: match (range.0, range.1) {
+                (Some(0), None) | (None, Some(i64::MAX)) => Range(None, None, range.2),
+                _ => range,
+            },
             constants: self.constants.clone(),
         })
     }
